@@ -100,7 +100,7 @@ def pushAlong (r : Fin n → Fin n → ℤ) (δ : ℤ) (p : List (Fin n)) : Fin 
   fun u v => r u v - δ * chi p u v
 
 /-- **residual_inv**: the invariant is preserved by an augmentation along a simple path whose residual
-    capacities all admit δ -/
+    capacities are all at least δ -/
 theorem pushAlong_resInv {c r : Fin n → Fin n → ℤ} (h : ResInv c r) (δ : ℤ) (hδ : 0 ≤ δ)
     (p : List (Fin n)) (hnd : p.Nodup) (hcap : ∀ ab ∈ consec p, δ ≤ r ab.1 ab.2) :
     ResInv c (pushAlong r δ p) := by
